@@ -336,6 +336,8 @@ def case_lines(c):
         return [case_line(step_case(c, st)) for st in c["steps"]]
     if c["op"] == "trace":
         return [trace_line(c)]
+    if c["op"] == "mg":
+        return [mg_line(c)]
     return [case_line(c)]
 
 
@@ -367,6 +369,8 @@ def short(c):
     d = {k: c[k] for k in ("op", "n", "fr", "kind", "p", "filters", "mode", "target") if k in c}
     if c["op"] == "trace":
         d["ops"] = describe_ops(c)
+    if c["op"] == "mg":
+        d["program"] = describe_mg(c)
     if c["op"] == "history":
         d["steps"] = [(st["target"], "force_real" if st["fr"] else "plain") for st in c["steps"]]
     if "kind" in d:
@@ -396,6 +400,9 @@ def gen_cases(ctx, count):
         u = rng.random()
         if u < 0.1:
             cases.append(gen_trace(rng, n, times))
+            continue
+        if u < 0.2:
+            cases.append(gen_mg(rng, min(n, 96), times[:min(n, 96)]))
             continue
         u = rng.random()
         if u < 0.14:
@@ -487,6 +494,34 @@ def correspondence(ctx, exe, count):
                 bad += 1
                 lim.fail(tag + ":table", "corr:%s:n=%d:table-modified" % (tag, c["n"]),
                          "filtering modified the caller's stored response table (%s); case %s" % (c["mode"], short(c)), {"kind": "corr", "case": c})
+            continue
+        if c["op"] == "mg":
+            tag = "sum-of-FunctionSignals"
+            dist[tag] = dist.get(tag, 0) + 1
+            ctx.case(key=("mg", c["n"], describe_mg(c), hexs(c["values"][:6])), nontrivial=True, sample=short(c))
+            flat = np.array(parse_floats(all_outs[lo]), dtype=float)
+            try:
+                impls, tols = run_mg(c)
+            except Exception as e:
+                bad += 1
+                lim.fail(tag, "corr:%s:n=%d:exception" % (tag, c["n"]), "program on FunctionSignal sums raised %s: %s; case %s" % (type(e).__name__, e, short(c)), {"kind": "corr", "case": c})
+                continue
+            if len(flat) != len(impls) * c["n"]:
+                bad += 1
+                lim.fail(tag, "corr:%s:n=%d:shape" % (tag, c["n"]), "model produced %d values for %d reads; case %s" % (len(flat), len(impls), short(c)), {"kind": "corr", "case": c})
+                continue
+            for i, (im, tol) in enumerate(zip(impls, tols)):
+                mo = flat[i * c["n"]:(i + 1) * c["n"]]
+                d = float(np.max(np.abs(im - mo))) if im.shape == mo.shape else float("inf")
+                if tol > 0 and d < float("inf"):
+                    worst = max(worst, d / tol)
+                if not d <= tol:
+                    bad += 1
+                    lim.fail(tag, "corr:%s:n=%d:read=%d" % (tag, c["n"], i),
+                             "sums of FunctionSignals whose terms carry different filter chains: read %d of the program [%s] differs from the model "
+                             "(sum over the terms, each with its own factor and filters): |impl-model|=%.3g > %.3g" % (i + 1, describe_mg(c, i), d, tol),
+                             {"kind": "corr", "case": c, "read_index": i})
+                    break
             continue
         if c["op"] == "trace":
             tag = "trace:%s" % ("FunctionSignal" if c["target"] == "fs" else "Signal")
@@ -623,6 +658,111 @@ def describe_ops(c, upto=None):
         names.append({"F": "filter(%s%s)" % (KIND_NAMES.get(o[1], "?") if o[0] == "F" else "", ",force_real" if o[0] == "F" and o[3] else ""),
                       "S": "*= %r" % (o[1],), "D": "/= %r" % (o[1],), "R": "read %s" % o[1]}[o[0]])
     return " ; ".join(names)
+
+
+# ----------------------------------------------------------------------------- sums of FunctionSignals with different filter chains
+def gen_mg(rng, n, times):
+    """A program for the stack machine over FunctionSignal objects: push new one-term signals, filter / scale the topmost,
+    add the two topmost (second + top; the operand order is random through the push order), read.  Terms reach a sum
+    with DIFFERENT filter chains (also: unfiltered first, filtered later), and sums are filtered again and extended."""
+    dt = times[1] - times[0]
+    ops, depth, adds = [], 0, 0
+    for step in range(rng.randint(7, 14)):
+        choices = []
+        if depth < 3:
+            choices += ["P", "P"]
+        if depth >= 2:
+            choices += ["A", "A", "A"]
+        if depth >= 1:
+            choices += ["F", "F", "S", "D", "R", "R"]
+        o = rng.choice(choices)
+        if o == "P":
+            ops.append(["P", gen_values(rng, n)])
+            depth += 1
+        elif o == "A":
+            ops.append(["A", rng.choice(["+", "sum"])])
+            ops.append(["R"])
+            depth -= 1
+            adds += 1
+        elif o == "F":
+            while True:
+                k, p1, p2, p3 = gen_response(rng, n, dt)
+                if k != 3:
+                    break
+            ops.append(["F", k, [p1, p2, p3], rng.randint(0, 1)])
+        elif o == "S":
+            ops.append(["S", rng.choice([2.0, 0.5, -3.0, rng.uniform(0.2, 4)])])
+        elif o == "D":
+            ops.append(["D", rng.choice([2.0, 0.25, -5.0, rng.uniform(0.2, 4)])])
+        else:
+            ops.append(["R"])
+    while depth >= 2:
+        ops.append(["A", "+"])
+        depth -= 1
+    if depth >= 1:
+        ops.append(["R"])
+    first = next(o[1] for o in ops if o[0] == "P")
+    return {"op": "mg", "n": n, "times": times, "ops": ops, "values": first}
+
+
+def mg_line(c):
+    parts = []
+    for o in c["ops"]:
+        if o[0] == "P":
+            parts.append("P %s" % hexs(o[1]))
+        elif o[0] == "F":
+            parts.append("F %d %s %d" % (o[1], hexs(o[2]), o[3]))
+        elif o[0] in ("S", "D"):
+            parts.append("%s %s" % (o[0], hexs([o[1]])))
+        else:
+            parts.append(o[0])
+    return "mg %d %d %s %s" % (len(c["ops"]), c["n"], " ".join(parts), hexs(c["times"]))
+
+
+def run_mg(c):
+    """The program on real FunctionSignal objects; returns ([values at each read], [tolerances])."""
+    import pyrex
+    t = np.array(c["times"], dtype=float)
+    stack, scales, outs, tols = [], [], [], []
+    for o in c["ops"]:
+        if o[0] == "P":
+            v = np.array(o[1], dtype=float)
+            stack.append(pyrex.FunctionSignal(t.copy(), (lambda vv: (lambda tt: vv.copy()))(v)))
+            scales.append(max([abs(x) for x in o[1]] + [0.0]))
+        elif o[0] == "A":
+            if len(stack) >= 2:
+                b, a = stack.pop(), stack.pop()
+                sb, sa = scales.pop(), scales.pop()
+                stack.append(a + b if o[1] == "+" else sum([a, b]))
+                scales.append(sa + sb)
+        elif not stack:
+            continue
+        elif o[0] == "F":
+            maybe_read(stack[-1])
+            stack[-1].filter_frequencies(py_response(o[1], *o[2]), force_real=bool(o[3]))
+            scales[-1] *= max(1.0, hmax(o[1], *o[2]))
+        elif o[0] == "S":
+            stack[-1] *= o[1]
+            scales[-1] *= abs(o[1])
+        elif o[0] == "D":
+            stack[-1] /= o[1]
+            scales[-1] /= abs(o[1])
+        else:
+            outs.append(np.array(stack[-1].values, dtype=float))
+            tols.append(1e-9 * scales[-1] + tol_floor(c["n"]))
+    return outs, tols
+
+
+def describe_mg(c, upto_read=None):
+    names, reads = [], 0
+    for o in c["ops"]:
+        names.append({"P": "push", "A": "add(%s)" % (o[1] if o[0] == "A" else ""), "F": "filter(%s%s)" % (KIND_NAMES.get(o[1], "?") if o[0] == "F" else "", ",force_real" if o[0] == "F" and o[3] else ""),
+                      "S": "*=%r" % (o[1] if o[0] == "S" else 0,), "D": "/=%r" % (o[1] if o[0] == "D" else 0,), "R": "READ"}[o[0]])
+        if o[0] == "R":
+            reads += 1
+            if upto_read is not None and reads > upto_read:
+                break
+    return " ".join(names)
 
 
 # ----------------------------------------------------------------------------- derived FunctionSignals
@@ -1100,7 +1240,7 @@ def gen_response_of(rng, kind, n, dt):
 # ----------------------------------------------------------------------------- entry points
 EXTRACT_REQ = "From PyrexLib Require Import DFT.\nFrom PyrexModel Require Import FilterModel."
 EXTRACT_CMD = ('Extract Constant Int_part => "(fun x -> int_of_float (floor x))".\n'
-               'Extraction "filt.ml" filter_frequencies apply_filters fft_l ifft_l fftfreq delay_response full_times function_signal_values sig_dt n_buffer fs_trace sg_trace fs_init.')
+               'Extraction "filt.ml" filter_frequencies apply_filters fft_l ifft_l fftfreq delay_response full_times function_signal_values sig_dt n_buffer fs_trace sg_trace fs_init mg_run.')
 
 
 PINS = [("pyrex/signals.py", "Signal.filter_frequencies"), ("pyrex/signals.py", "Signal._get_filter_response"),
@@ -1171,6 +1311,24 @@ def replay(ctx, obj):
                     rc = 1
         print("stored response table unmodified afterwards:", intact)
         return rc or (0 if intact else 1)
+    if obj.get("kind") == "corr" and obj["case"].get("op") == "mg":
+        c = obj["case"]
+        print("program on FunctionSignal objects (n=%d): %s" % (c["n"], describe_mg(c)))
+        impls, tols = run_mg(c)
+        ctx.coq_build("C05")
+        exe = dft_extract.build(ctx, "c05", EXTRACT_REQ, EXTRACT_CMD, "filt", "c05_driver.ml")
+        if not exe:
+            return 1
+        flat = np.array(parse_floats(dft_extract.run_lines(exe, [mg_line(c)])[0]))
+        rc = 0
+        for i, (im, tol) in enumerate(zip(impls, tols)):
+            mo = flat[i * c["n"]:(i + 1) * c["n"]]
+            d = float(np.max(np.abs(im - mo)))
+            print("read %d: max |impl-model| = %.3g, tolerance %.3g -> %s" % (i + 1, d, tol, "AGREE" if d <= tol else "DISAGREE"))
+            if not d <= tol:
+                print("   implementation:", im[:6], "\n   model         :", mo[:6])
+                rc = 1
+        return rc
     if obj.get("kind") == "corr" and obj["case"].get("op") == "trace":
         c = obj["case"]
         print("one %s object, n=%d, history: %s" % ("FunctionSignal" if c["target"] == "fs" else "Signal", c["n"], describe_ops(c)))
